@@ -49,7 +49,12 @@ def s1_templates(ctx):
     for a in f.nodes(ast.Assign):
         if isinstance(a.value, ast.Call) and dotted(a.value.func) == '_load_multiple_files' and const_value(a.value.args[0]) == 'templates.npy':
             tl = unparse(a.targets[0])
-            ctx.check(unparse(a.value.args[1]) == 'self.subdirs', 'C12.S1', f, a, 'per-probe templates are loaded in input order', 'templates are not loaded from self.subdirs in order')
+            d_x = f.expand(a.value.args[1]) if len(a.value.args) > 1 else None
+            ctx.tri(d_x is not None and Pat().m('self.subdirs', d_x),
+                    d_x is not None and any(isinstance(n, ast.Attribute) and n.attr == 'subdirs' for n in ast.walk(d_x)) and
+                    any((isinstance(n, ast.Call) and (dotted(n.func) or '') in ('sorted', 'reversed', 'set')) or isinstance(n, (ast.Slice, ast.ListComp)) for n in ast.walk(d_x)),
+                    'C12.S1', f, a, 'per-probe templates are loaded in input order', 'templates are not loaded from self.subdirs in order (`%s`)' % (unparse(d_x) if d_x is not None else ''),
+                    'the directories the templates are loaded from were not recognised')
     if tl is None:
         ctx.undecided('C12.S1', f, 'templates.npy of the inputs is not loaded with _load_multiple_files')
         return
@@ -276,9 +281,13 @@ def s2_template_data(ctx):
         return
     ind, arr, src_e = pl
     srcname = unparse(src_e)
-    src = [a for a in g.nodes(ast.Assign) if unparse(a.targets[0]) == srcname and isinstance(a.value, ast.Call) and dotted(a.value.func) == '_load_multiple_files']
-    ctx.check(bool(src) and const_value(src[0].value.args[0]) == 'channel_map.npy' and unparse(src[0].value.args[1]) == 'self.subdirs', 'C12.S3', g, lp.iter,
-              'probes are enumerated over their channel maps in input order', 'the probe loop does not enumerate the channel maps of the inputs in order')
+    src_x = g.expand(src_e)
+    ctx.tri(Pat().m("_load_multiple_files('channel_map.npy', self.subdirs)", src_x),
+            Pat().m('_load_multiple_files(E_f, E_d)', src_x) and not Pat().m("_load_multiple_files('channel_map.npy', self.subdirs)", src_x) and
+            (isinstance(src_x.args[0], ast.Constant) and (src_x.args[0].value != 'channel_map.npy' or any(isinstance(n, ast.Call) and (dotted(n.func) or '') in ('sorted', 'reversed') or
+                                                                                                     (isinstance(n, ast.Slice)) for n in ast.walk(src_x.args[1])))),
+            'C12.S3', g, lp.iter, 'probes are enumerated over their channel maps in input order', 'the probe loop does not enumerate the channel maps of the inputs in order (`%s`)' % unparse(src_x)[:70],
+            'the sequence the probe loop runs over was not recognised')
     accs = [unparse(a.targets[0]) for a in g.body() if isinstance(a, ast.Assign) and const_value(a.value) == 0 and isinstance(a.targets[0], ast.Name)]
     ARR, k = T('ARR'), T('k')
     env = {g.params[0]: me, arr: ARR}
